@@ -174,7 +174,11 @@ inductive Out where
   | list (items : OutList)
   /-- object value: the executed sub-fields in execution order -/
   | obj (fields : FldList)
-  /-- the field's resolver raised `ResolverError(msg, extensions=ext)` (only directly below a field) -/
+  /-- the field's resolver raised `ResolverError(msg, extensions=ext)`, or its ARGUMENTS failed to coerce at
+      execution time (`CoercionError`, `ext = none`): both go through `fail` of `resolve_field`
+      (only directly below a field). Error objects are VALUES here: aliasing of one exception object
+      between registrations (finding X6, the seeded cache-of-failures change) is visible only to the
+      correspondence and the direct oracle. -/
   | raised (msg : String) (ext : Option (List (String × J)))
 inductive OutList where
   | nil
